@@ -80,11 +80,19 @@ Definition probe_ok (s : state) (p : op * pobs) : bool :=
   | PObs ob => step_ok s' out ob
   end.
 
+(** model-internal cross-check on every sampled state: the round-1 end-block operation and the
+    whole end-blocker with nothing to tally, nothing to price and no panic are the same thing *)
+Definition eb_consistent (s : state) (o : op) : bool :=
+  match o with
+  | OEndBlock h now f => same_obs (fst (step s o)) (fst (step s (OEndBlockFull h now [] [] f nofault)))
+  | _ => true
+  end.
+
 Fixpoint replayP (s : state) (steps : list pstep) : bool :=
   match steps with
   | [] => true
   | (o, ob, probes) :: r =>
-      forallb (probe_ok s) probes &&
+      forallb (probe_ok s) probes && eb_consistent s o &&
       (let (s', out) := step s o in
        match ob with MFull ob => step_ok s' out ob | MOk ok => out_eqb out ok end && replayP s' r)
   end.
